@@ -31,9 +31,8 @@ def isLineBoundary (data : Bytes) (pos : Nat) : Bool :=
 def countLines (b : Bytes) : Nat :=
   countNL b + (if b.isEmpty || b.getLast? == some 10 then 0 else 1)
 
-/-- one content line match agrees with the file: number, start, end, text, fragments inside the line, and the
-    before/after context is exactly the `ctx` neighbouring lines (fewer only at the file boundaries) -/
-def lineMatchOk (data : Bytes) (ctx : Nat) (lm : LineMatch) : Bool :=
+/-- one content line match agrees with the file: number, start, end, text, fragments inside the line -/
+def lineCoreOk (data : Bytes) (lm : LineMatch) : Bool :=
   decide (lm.lineNumber ≥ 1) &&
   lm.lineStart == lineStartSpec data lm.lineNumber &&
   decide (lm.lineStart < data.length) &&
@@ -45,13 +44,21 @@ def lineMatchOk (data : Bytes) (ctx : Nat) (lm : LineMatch) : Bool :=
   -- fragments: inside the line, LineOffset relative to the line start
   lm.frags.all (fun f => decide (lm.lineStart ≤ f.off) && decide (f.off + f.len ≤ lm.lineEnd) &&
                          f.lineOff == (f.off : Int) - (lm.lineStart : Int)) &&
-  decide (lm.frags.length > 0) &&
-  -- context
+  decide (lm.frags.length > 0)
+
+/-- the before/after context is the text of the `ctx` neighbouring lines (up to the file boundaries) -/
+def lineContextOk (data : Bytes) (ctx : Nat) (lm : LineMatch) : Bool :=
   (let k := min ctx (lm.lineNumber - 1)
-   lm.before == Bytes.slice data (lineStartSpec data (lm.lineNumber - k)) lm.lineStart &&
-   countLines lm.before == k) &&
-  (lm.after == Bytes.slice data lm.lineEnd (lineStartSpec data (lm.lineNumber + 1 + ctx)) &&
-   countLines lm.after == min ctx (countLines data - lm.lineNumber))
+   lm.before == Bytes.slice data (lineStartSpec data (lm.lineNumber - k)) lm.lineStart) &&
+  lm.after == Bytes.slice data lm.lineEnd (lineStartSpec data (lm.lineNumber + 1 + ctx))
+
+/-- … and is exactly the requested number of lines, fewer only at the file boundaries -/
+def lineContextCountOk (data : Bytes) (ctx : Nat) (lm : LineMatch) : Bool :=
+  countLines lm.before == min ctx (lm.lineNumber - 1) &&
+  countLines lm.after == min ctx (countLines data - lm.lineNumber)
+
+def lineMatchOk (data : Bytes) (ctx : Nat) (lm : LineMatch) : Bool :=
+  lineCoreOk data lm && lineContextOk data ctx lm && lineContextCountOk data ctx lm
 
 /-- a file-name match reports the file name as its text -/
 def fileNameLineOk (name : Bytes) (lm : LineMatch) : Bool :=
